@@ -362,10 +362,24 @@ def outlier_reference(fixed, mobile, min_anchors, max_iterations, quantiles, thr
             d2 = d2.mean(axis=0)
         lo, hi = np.quantile(d2, [qlo, qhi])
         thr = hi + threshold * (hi - lo)
-        if np.any(np.abs(d2 - thr) <= margin * (1.0 + abs(thr))):
-            ambiguous = True
-            break
-        keep = d2 <= thr
+        vi = qhi * (len(d2) - 1)
+        if threshold == 0 and vi == round(vi):
+            # the threshold IS one of the squared distances (an order statistic, no interpolation, no IPR term):
+            # an exact tie in any arithmetic.  Documented rule: outlier iff d^2 > threshold, so the tied atom and
+            # everything below it stay; only the gap to the next larger distance has to be clear.
+            k = int(round(vi))
+            order = np.argsort(d2, kind="stable")
+            ds = d2[order]
+            if k + 1 < len(ds) and ds[k + 1] - ds[k] <= margin * (1.0 + abs(thr)):
+                ambiguous = True
+                break
+            keep = np.zeros(len(d2), dtype=bool)
+            keep[order[: k + 1]] = True
+        else:
+            if np.any(np.abs(d2 - thr) <= margin * (1.0 + abs(thr))):
+                ambiguous = True
+                break
+            keep = d2 <= thr
         if keep.all():
             break
         if np.count_nonzero(keep) < min_anchors:
